@@ -107,6 +107,10 @@ pub fn run_passes(cfg: &Cfg) -> Result<Vec<Report>, PanicInfo> {
 /// (parse_files, desugaring, `TemplateData` / `FunctionData`, definition merger when a main
 /// component is present) and lifted by the runner itself; returns the SSA CFG the passes see.
 pub fn lift_via_runner(src: &str, dir: &std::path::Path, name: &str, function: bool, with_main: bool) -> Result<Cfg, LiftError> {
+    lift_via_runner_curve(src, dir, name, function, with_main, Curve::Bn254)
+}
+
+pub fn lift_via_runner_curve(src: &str, dir: &std::path::Path, name: &str, function: bool, with_main: bool, curve: Curve) -> Result<Cfg, LiftError> {
     let text = if with_main && !function {
         // No pragma line: spans in the file equal spans in `src`.
         format!("{src}\ncomponent main = {name}(1);\n")
@@ -114,7 +118,7 @@ pub fn lift_via_runner(src: &str, dir: &std::path::Path, name: &str, function: b
         src.to_string()
     };
     let files = crate::sut::runner::write_project(dir, &[("r.circom", &text)]);
-    let mut loaded = match crate::sut::runner::load(&files, &[], Curve::Bn254) {
+    let mut loaded = match crate::sut::runner::load(&files, &[], curve) {
         Ok(l) => l,
         Err(info) => return Err(LiftError::Panic { stage: Stage::Parse, info }),
     };
